@@ -158,6 +158,8 @@ class SpecMixin:
         if name in ("map_has", "map_get", "map_key0"):
             from .models import _map_entries, _map_find
             m = args[0]
+            if isinstance(m, Opt):
+                m = m.val
             if name == "map_key0":
                 yield st, _map_entries(st, m)[0][0]
                 return
